@@ -354,7 +354,7 @@ def r_indent_pairing(ctx, repo):
             p = c
             while p is not None and p is not f.node:
                 p = getattr(p, '_parent', None)
-                if isinstance(p, ast.While) and norm(p.test) in ('self.indent > column', 'column < self.indent'):
+                if isinstance(p, ast.While) and len(f.params) > 1 and norm(p.test) in ('self.indent > %s' % f.params[1], '%s < self.indent' % f.params[1]):
                     body = norm(p.body)
                     good = 'BlockEndToken' in body and body.count('self.indents.pop()') == 1
         if good:
@@ -387,19 +387,41 @@ def r_indent_pairing(ctx, repo):
                 rule.fail('%s|add_indent' % f.qualname, f.module.rel, c.lineno, f.qualname, norm(c),
                           'an add_indent call whose true result is not answered by exactly one Block*StartToken')
     # flow_level: +1 only with a Flow*StartToken, -1 only with a Flow*EndToken
+    def appended_token_classes(g):
+        """names of the token classes g appends to the queue (a class named directly, or a parameter: then the arguments
+        of every call of g inside the scanner)."""
+        out = set()
+        for c in A.func_calls(g.node):
+            if isinstance(c.func, ast.Attribute) and c.func.attr in ('append', 'insert') and norm(c.func.value) == 'self.tokens' and c.args:
+                tok = c.args[-1]
+                if isinstance(tok, ast.Call):
+                    fn = tok.func
+                    if isinstance(fn, ast.Name) and fn.id in g.params:
+                        idx = g.params.index(fn.id) - 1
+                        for h in S.methods.values():
+                            for cc in A.func_calls(h.node):
+                                if isinstance(cc.func, ast.Attribute) and cc.func.attr == g.name and norm(cc.func.value) == 'self':
+                                    if 0 <= idx < len(cc.args):
+                                        out.add(norm(cc.args[idx]))
+                                    for kw in cc.keywords:
+                                        if kw.arg == fn.id:
+                                            out.add(norm(kw.value))
+                    else:
+                        out.add(norm(fn))
+        return out
     for f in S.methods.values():
         for n in walk_function(f.node):
             if isinstance(n, ast.AugAssign) and norm(n.target) == 'self.flow_level':
-                body = norm(f.node)
-                if isinstance(n.op, ast.Add) and 'TokenClass(start_mark, end_mark)' in body and 'start' in f.name:
-                    rule.ok(f.loc(n), 'flow_level += 1 in %s' % f.name)
-                elif isinstance(n.op, ast.Sub) and 'TokenClass(start_mark, end_mark)' in body and 'end' in f.name:
-                    rule.ok(f.loc(n), 'flow_level -= 1 in %s' % f.name)
+                toks = appended_token_classes(f)
+                want = 'Start' if isinstance(n.op, ast.Add) else 'End'
+                if toks and all(t.startswith('Flow') and t.endswith(want + 'Token') for t in toks):
+                    rule.ok(f.loc(n), 'flow_level %s 1 together with %s' % ('+=' if want == 'Start' else '-=', sorted(toks)))
                 else:
                     ok_all = False
                     rule.fail('%s|flow_level' % f.qualname, f.module.rel, n.lineno, f.qualname, norm(n),
-                              'flow_level changed in a function that does not emit the matching flow collection token')
-    rule.require_min(8, 'indent/flow bookkeeping sites')
+                              'flow_level changed in a function that does not emit the matching flow collection token (emits %s)'
+                              % sorted(toks))
+    rule.require_min(5, 'indent/flow bookkeeping sites')
     ctx.extra['indent_pairing_ok'] = ok_all
     return ok_all
 
